@@ -175,7 +175,7 @@ func applyBitmap(x *allocator.IPAllocator, o sop, cidr string, unit int, allowMo
 var bitmapKinds = []string{"alloc", "alloc", "alloc", "allocSpecific", "release", "release", "releasePrefix", "setAllocation"}
 
 func TestPropSerialBitmap(t *testing.T) {
-	vstat.Checks(2500, 50000)
+	vstat.Checks(2000, 40000)
 	rapid.Check(t, func(rt *rapid.T) {
 		cidr, unit, gclass := genBitmapGeom(rt)
 		a, err := allocator.NewIPAllocator(cidr, unit)
@@ -622,7 +622,7 @@ func applyMemStore(x *allocator.MemoryAllocationStore, m *msState, o sop, commit
 var msKinds = []string{"save", "save", "save", "remove", "setTotal"}
 
 func TestPropSerialMemStore(t *testing.T) {
-	vstat.Checks(2500, 50000)
+	vstat.Checks(2000, 40000)
 	rapid.Check(t, func(rt *rapid.T) {
 		ctx := context.Background()
 		a := allocator.NewMemoryAllocationStore()
